@@ -6,6 +6,7 @@ orderer must use, and that no target-carrying instruction is left without an
 edge.  Does NOT decide the partition invariant on every code object.
 """
 import ast
+import copy
 
 from sa.core import rule, AnalysisError
 from sa.pyindex import get_module, dotted, src, calls_in, try_fold
@@ -670,17 +671,149 @@ class _View:
     return U.enclosing_stmt(self.parent, node)
 
 
+def _pure_read(e):
+  """A name / attribute chain / constant-subscript chain: reading it has no effect."""
+  while True:
+    if isinstance(e, ast.Name):
+      return True
+    if isinstance(e, ast.Attribute):
+      e = e.value
+    elif isinstance(e, ast.Subscript) and isinstance(e.slice, ast.Constant):
+      e = e.value
+    else:
+      return False
+
+
+class _Replace(ast.NodeTransformer):
+  def __init__(self, name, expr):
+    self.name, self.expr = name, expr
+
+  def visit_Name(self, n):  # pylint: disable=invalid-name
+    if n.id == self.name and isinstance(n.ctx, ast.Load):
+      return ast.copy_location(copy.deepcopy(self.expr), n)
+    return n
+
+
+def _desugar_edge_loop(mod, fn, loop):
+  """Rewrites two spellings of compute_order's edge loop (a private copy of the
+  AST) into the canonical one, statement for statement equivalent:
+
+  * `for b, n in itertools.zip_longest(xs, xs[1:])` (xs not mentioned in the
+    body, b/n not re-bound) is `for i, b in enumerate(xs)` with
+    `n = xs[i + 1] if i < len(xs) - 1 else None`;
+  * `ops = [e1, e2]; ops.extend(E for v in it); ops.append(e3);
+    for s in ops: BODY` - the list only built by these statements directly in
+    the loop body and only walked by that one loop, every element a pure
+    attribute read, BODY made of `if`s and connect_outgoing calls (no
+    break/continue/assignment) - is BODY[s:=e1]; BODY[s:=e2];
+    `for v in it: BODY[s:=E]`; BODY[s:=e3], in that order."""
+  def refuse(msg):
+    raise AnalysisError(f"{BLOCKS}: compute_order's edge loop: {msg}")
+  it = loop.iter
+  if isinstance(it, ast.Call) and (dotted(it.func) or "").endswith("zip_longest"):
+    ok = dotted(it.func) == "itertools.zip_longest" and mod.imports.get("itertools") == "itertools" \
+        and not it.keywords and len(it.args) == 2 and isinstance(it.args[0], ast.Name) \
+        and isinstance(loop.target, ast.Tuple) and len(loop.target.elts) == 2 \
+        and all(isinstance(e, ast.Name) for e in loop.target.elts)
+    if ok:
+      xs, second = it.args[0].id, it.args[1]
+      ok = isinstance(second, ast.Subscript) and dotted(second.value) == xs \
+          and isinstance(second.slice, ast.Slice) and second.slice.upper is None \
+          and second.slice.step is None and try_fold(second.slice.lower) == 1
+    if not ok:
+      refuse(f"`{src(it)}` is not zip_longest(xs, xs[1:])")
+    b, n = (e.id for e in loop.target.elts)
+    for st in loop.body + loop.orelse:
+      for x in ast.walk(st):
+        if isinstance(x, ast.Name) and (x.id == xs or x.id in (b, n, "__i") and
+                                        isinstance(x.ctx, (ast.Store, ast.Del))):
+          refuse(f"`{x.id}` is used / re-bound inside a zip_longest loop over `{xs}`")
+    head = ast.parse(f"for __i, {b} in enumerate({xs}):\n"
+                     f"  {n} = {xs}[__i + 1] if __i < len({xs}) - 1 else None\n").body[0]
+    for x in ast.walk(head):
+      ast.copy_location(x, loop)
+    loop.target, loop.iter = head.target, head.iter
+    loop.body.insert(0, head.body[0])
+  # successor list walked by an inner loop
+  for inner in [st for st in loop.body if isinstance(st, ast.For) and isinstance(st.iter, ast.Name)
+                and any(isinstance(c.func, ast.Attribute) and c.func.attr == "connect_outgoing"
+                        for c in calls_in(st))]:
+    lst = inner.iter.id
+    if not isinstance(inner.target, ast.Name) or inner.orelse:
+      refuse(f"the loop over `{lst}` has a non-plain header")
+    v = inner.target.id
+    build, pieces = [], []
+    for st in loop.body[:loop.body.index(inner)]:
+      if not any(isinstance(x, ast.Name) and x.id == lst for x in ast.walk(st)):
+        continue
+      if isinstance(st, ast.Assign) and len(st.targets) == 1 and dotted(st.targets[0]) == lst \
+          and isinstance(st.value, ast.List) and not build:
+        pieces += [("elt", e) for e in st.value.elts]
+      elif build and isinstance(st, ast.Expr) and isinstance(st.value, ast.Call) \
+          and isinstance(st.value.func, ast.Attribute) and dotted(st.value.func.value) == lst \
+          and len(st.value.args) == 1 and not st.value.keywords \
+          and st.value.func.attr in ("append", "extend"):
+        a = st.value.args[0]
+        if st.value.func.attr == "append":
+          pieces.append(("elt", a))
+        elif isinstance(a, ast.List):
+          pieces += [("elt", e) for e in a.elts]
+        elif isinstance(a, (ast.GeneratorExp, ast.ListComp)) and len(a.generators) == 1 \
+            and not a.generators[0].is_async and isinstance(a.generators[0].target, ast.Name):
+          pieces.append(("gen", a))
+        else:
+          refuse(f"`{src(st)[:60]}` is not an understood way to build `{lst}`")
+      else:
+        refuse(f"`{src(st)[:60]}` is not an understood way to build `{lst}`")
+      build.append(st)
+    if not build:
+      refuse(f"the list `{lst}` walked by the inner loop is not built in the loop body")
+    uses = [x for x in ast.walk(fn) if isinstance(x, ast.Name) and x.id == lst]
+    inside = {id(x) for st in build + [inner.iter] for x in ast.walk(st)}
+    if any(id(x) not in inside for x in uses):
+      refuse(f"the list `{lst}` is used outside its construction and its loop")
+    for x in [y for st in inner.body for y in ast.walk(st)]:
+      if isinstance(x, (ast.Break, ast.Continue, ast.Return, ast.Assign, ast.AugAssign, ast.AnnAssign,
+                        ast.Delete, ast.NamedExpr, ast.For, ast.While, ast.Try, ast.With)) or \
+          isinstance(x, ast.Call) and not (isinstance(x.func, ast.Attribute)
+                                           and x.func.attr == "connect_outgoing"):
+        refuse(f"the body of the loop over `{lst}` does more than guard connect_outgoing calls")
+    for kind, e in pieces:
+      if any(isinstance(x, ast.Name) and x.id in (v, lst) for x in ast.walk(e)) or isinstance(e, ast.Starred):
+        refuse(f"element `{src(e)}` of `{lst}` mentions the list or its loop variable")
+      if not _pure_read(e if kind == "elt" else e.elt):
+        refuse(f"element `{src(e)}` of `{lst}` is not a plain attribute read")
+    out = []
+    for kind, e in pieces:
+      if kind == "elt":
+        out += [_Replace(v, e).visit(copy.deepcopy(st)) for st in inner.body]
+        continue
+      g = e.generators[0]
+      body = [_Replace(v, e.elt).visit(copy.deepcopy(st)) for st in inner.body]
+      for cond in reversed(g.ifs):
+        body = [ast.copy_location(ast.If(test=copy.deepcopy(cond), body=body, orelse=[]), inner)]
+      out.append(ast.copy_location(
+          ast.For(target=copy.deepcopy(g.target), iter=copy.deepcopy(g.iter), body=body,
+                  orelse=[], type_comment=None), inner))
+    at = loop.body.index(inner)
+    loop.body[at:at + 1] = out
+    loop.body[:] = [st for st in loop.body if not any(st is b for b in build)]
+    ast.fix_missing_locations(loop)
+
+
 def _edge_loop(ctx):
   """The `for i, block in enumerate(blocks)` loop of compute_order."""
   mod = get_module(ctx, BLOCKS)
   fn, parent, inlined = U.inline_local_calls(mod, mod.func("compute_order"), depth=2)
-  view = _View(mod, fn, parent, inlined)
   loops = [n for n in fn.body if isinstance(n, ast.For) and any(
       isinstance(c.func, ast.Attribute) and c.func.attr == "connect_outgoing"
       for c in calls_in(n))]
   if len(loops) != 1:
     raise AnalysisError(f"{BLOCKS}: compute_order's edge loop not found")
   loop = loops[0]
+  _desugar_edge_loop(mod, fn, loop)
+  parent = U.parent_map(fn)
+  view = _View(mod, fn, parent, inlined)
   tgt = loop.target
   blockvar = idxvar = None
   if isinstance(tgt, ast.Tuple) and len(tgt.elts) == 2 and \
@@ -1548,7 +1681,61 @@ _SETUP_DELEGATES = [
      "def _get_opcode_following_cleanup_throw_jump_pairs(\n"),
 ]
 
+_EDGE_IFS = ("    if first_op.target:\n"
+             "      # Handles SETUP_EXCEPT -> except block\n"
+             "      block.connect_outgoing(first_op_to_block[first_op.target])\n"
+             "    if last_op.target:\n"
+             "      block.connect_outgoing(first_op_to_block[last_op.target])\n"
+             "    for op in block.code[1:-1]:\n"
+             "      # An instruction that only stores a jump (SETUP_EXCEPT_311) neither\n"
+             "      # starts nor ends a block, so it can sit in the middle of one.\n"
+             "      if op.target:\n"
+             "        block.connect_outgoing(first_op_to_block[op.target])\n"
+             "    if last_op.block_target:\n"
+             "      block.connect_outgoing(first_op_to_block[last_op.block_target])\n")
+
+
+def _successor_list(header="itertools.zip_longest(blocks, blocks[1:])",
+                    first="[first_op.target, last_op.target]",
+                    middle="    successor_ops.extend(op.target for op in block.code[1:-1])\n",
+                    last="    successor_ops.append(last_op.block_target)\n",
+                    guard="successor_op", extra=""):
+  """compute_order's edge loop in the shape of benign/C16-b3r1 (blocks paired
+  with their successors by zip_longest, one loop over a successor-op list),
+  with room for a defect."""
+  return [
+      (BLOCKS, "from collections.abc import Iterator\n",
+       "from collections.abc import Iterator\nimport itertools\n"),
+      (BLOCKS, "  for i, block in enumerate(blocks):\n"
+       "    next_block = blocks[i + 1] if i < len(blocks) - 1 else None\n",
+       f"  for block, next_block in {header}:\n"),
+      (BLOCKS, _EDGE_IFS,
+       f"    successor_ops = {first}\n" + middle + last + extra +
+       "    for successor_op in successor_ops:\n"
+       f"      if {guard}:\n"
+       "        block.connect_outgoing(first_op_to_block[successor_op])\n")]
+
+
 VARIANTS = [
+    # benign/C16-b3r1: zip_longest pairing + one loop over a successor-op list
+    {"name": "twin-successor-list", "rule": "R16.4", "expect": "silent",
+     "edits": _successor_list()},
+    {"name": "twin-successor-list-r5", "rule": "R16.5", "expect": "silent",
+     "edits": _successor_list()},
+    {"name": "successor-list-lacks-block-target", "rule": "R16.4", "expect": "fire",
+     "edits": _successor_list(last="")},
+    {"name": "successor-list-lacks-first-target", "rule": "R16.4", "expect": "fire",
+     "edits": _successor_list(first="[last_op.target]")},
+    {"name": "successor-list-middle-skips-nothing-but-misses-last", "rule": "R16.4",
+     "expect": "fire", "edits": _successor_list(first="[first_op.target]")},
+    {"name": "successor-pairing-skips-a-block", "rule": "R16.4", "expect": "error",
+     "edits": _successor_list(header="itertools.zip_longest(blocks, blocks[2:])")},
+    {"name": "successor-pairing-by-zip-drops-last-block", "rule": "R16.4", "expect": "error",
+     "edits": _successor_list(header="zip(blocks, blocks[1:])")},
+    {"name": "successor-list-cleared-before-loop", "rule": "R16.4", "expect": "error",
+     "edits": _successor_list(extra="    successor_ops.clear()\n")},
+    {"name": "successor-list-guard-inverted", "rule": "R16.5", "expect": "fire",
+     "edits": _successor_list(guard="not successor_op")},
     # -- R16.1
     {"name": "flag-value-aliases-another", "rule": "R16.1", "file": OPC, "expect": "fire",
      "old": "HAS_NARGS = 128  # stores", "new": "HAS_NARGS = 64  # stores"},
@@ -1835,4 +2022,27 @@ VARIANTS = [
      "edits": _SETUP_DELEGATES + [
          (OPC, "      # This entry corresponds to an `async for` block.\n      continue\n",
           "      # This entry corresponds to an `async for` block.\n      break\n")]},
+]
+
+EXPLANATION += (
+    "\n\nR16.4 / R16.5, spellings of compute_order's edge loop: before the edges "
+    "are classified the (inlined, private) AST of the loop is rewritten into the "
+    "canonical form by two exact equivalences (_desugar_edge_loop).  "
+    "`for b, n in itertools.zip_longest(xs, xs[1:])` - xs not mentioned in the "
+    "body, b and n not re-bound - is `for i, b in enumerate(xs)` with `n = xs[i "
+    "+ 1] if i < len(xs) - 1 else None`; any other zip_longest / zip pairing is "
+    "an AnalysisError.  A list of successor instructions built directly in the "
+    "loop body by a list literal, append and extend(<one-generator "
+    "comprehension>) of plain attribute reads, and walked by exactly one inner "
+    "loop whose body only guards connect_outgoing calls, is unrolled in element "
+    "order: the body once per literal element, a `for` over the comprehension's "
+    "iterable for an extend.  The unrolled statements are then judged exactly "
+    "like the hand-written `if x.target: connect_outgoing(...)` statements, so "
+    "a missing element is a missing edge."
+)
+ASSUMPTIONS += [
+    "R16.4/R16.5 (successor list): Block.connect_outgoing does not change the "
+    ".target / .block_target of an instruction nor a block's code list, so "
+    "reading the successor instructions before the first edge is added "
+    "(list form) or between the edges (if form) gives the same values",
 ]
